@@ -1,0 +1,24 @@
+//! Verification hooks (cargo feature `hyperium_h2_verif`).
+//!
+//! Add-only: nothing here changes the behaviour of the library; it only makes
+//! crate-private pure components reachable from the out-of-tree verification
+//! harness so that they can be run side by side with their formal model.
+
+/// HPACK and Huffman entry points.
+pub mod hpack {
+    pub use crate::hpack::{BytesStr, Decoder, DecoderError, Encoder, Header, NeedMore};
+    use bytes::BytesMut;
+
+    /// `hpack::huffman::encode`
+    pub fn huffman_encode(src: &[u8]) -> Vec<u8> {
+        let mut dst = BytesMut::new();
+        crate::hpack::huffman::encode(src, &mut dst);
+        dst.to_vec()
+    }
+
+    /// `hpack::huffman::decode`
+    pub fn huffman_decode(src: &[u8]) -> Result<Vec<u8>, DecoderError> {
+        let mut buf = BytesMut::new();
+        crate::hpack::huffman::decode(src, &mut buf).map(|b| b.to_vec())
+    }
+}
